@@ -300,6 +300,26 @@ func init() {
 		HSpec{Pkg: swapPkg, Func: "VerifHarness_C13_SellWithOrders", Tier: "quick", Configs: []map[string]int64{cfg("orders", 0), cfg("orders", 1)}, Bounds: "concrete pool 10000/10000 BIP and concrete resting orders; taker amount symbolic in (0, 100000 BIP]"},
 		HSpec{Pkg: swapPkg, Func: "VerifHarness_C13_SellWithOrders", Tier: "thorough", Configs: []map[string]int64{cfg("orders", 2)}, Bounds: "as above with two order levels"})
 
+	// ---------------------------------------------------------- C14 limit orders
+	{
+		c14a := append([]string{
+			"state-level step over the real SwapV2 / PairV2 order code inside a full State: a pool 10000/10000 with a concrete book of resting orders (1..3 orders, two price levels, two orders at one price with different ids, optionally inserted against priority order), committed or not; the taker's amount is symbolic in (0, 100000] coins; then cancel (twice) or expiry (twice) in the same block",
+			"order prices are executed bit-exactly by Go's own big.Float on the concrete book; the taker-dependent arithmetic is symbolic (big.Rat / big.Float over exact reals)",
+			"books of more than 3 orders, the paged on-disk index (loading in pages of 10 ids) and interleavings over several blocks are outside the bound; owner-only cancellation is a transaction-level gate (RemoveLimitOrder), not part of this harness",
+			"a feasibility query answered unknown makes the engine explore both sides (over-approximation, counted in the evidence)",
+		}, commonAssumptions...)
+		oc := func(kv ...interface{}) map[string]int64 { return cfg(kv...) }
+		add("C14", c14a,
+			HSpec{Pkg: "coreV2/state", Func: "VerifHarness_C14_FillThenClose", Tier: "quick", Configs: []map[string]int64{
+				oc("orders", 1, "commit", 1, "close", 0), oc("orders", 1, "commit", 1, "close", 1), oc("orders", 2, "commit", 1, "close", 0)},
+				Bounds: "1 or 2 resting orders, committed; taker amount symbolic; cancel / expire in the block of the fill"},
+			HSpec{Pkg: "coreV2/state", Func: "VerifHarness_C14_FillThenClose", Tier: "thorough", Configs: []map[string]int64{
+				oc("orders", 2, "commit", 1, "close", 1), oc("orders", 2, "commit", 0), oc("orders", 3, "commit", 1, "close", 0), oc("orders", 3, "commit", 1, "close", 1), oc("orders", 3, "commit", 0, "reverseInsert", 1)},
+				Bounds: "up to 3 resting orders (two at one price), committed or not, inserted in or against priority order"})
+		add("C07", c14a, HSpec{Pkg: "coreV2/state", Func: "VerifHarness_C14_FillThenClose", Tier: "quick", Configs: []map[string]int64{oc("orders", 2, "commit", 1, "close", 0)},
+			Bounds: "2 resting orders; taker amount symbolic; no panic"})
+	}
+
 	// ---------------------------------------------------------- C11 export / import, C21 checks
 	{
 		c11 := HSpec{Pkg: "coreV2/state", Func: "VerifHarness_C11_ExportImport", Tier: "quick", Configs: []map[string]int64{cfg("concrete", 0)},
